@@ -154,7 +154,7 @@ func (e histEngine) FaultKinds() []string {
 	if e.id == "C06" {
 		return []string{"F2_restore", "F2_restart", "F2_double_restore", "F2_restore_on_passthrough"}
 	}
-	return []string{"F1_rejected_reconfigure", "F1_on_passthrough", "F1_on_configured_debug_on", "F1_multi_violation", "F1_derived_from_current_config"}
+	return []string{"F1_rejected_reconfigure", "F1_on_passthrough", "F1_on_configured_debug_on", "F1_multi_violation", "F1_derived_from_current_config", "F1_rejected_mid_stream"}
 }
 func (e histEngine) Probes() []string {
 	if e.id == "C06" {
@@ -549,7 +549,40 @@ func (e histEngine) f1(p *HistPlan, m *cors.Middleware, cur int, st HStep, label
 	if d := diffObs(before, after, suite, true); d != "" {
 		return &Violation{Class: "state-changed", Key: "rejected-reconfigure", Detail: fmt.Sprintf("%s: after rejected Reconfigure(%s): %s", label, bad, d)}
 	}
-	return nil
+	// the rejected call landing INSIDE the request stream: request, rejected Reconfigure, the
+	// same request again, at positions derived from the plan. The two full passes above start
+	// from the same point of the suite, so anything the library might (wrongly) carry from
+	// request to request is rebuilt identically by both; here the second answer is given in
+	// whatever state the stream so far has left behind.
+	stride := 8
+	if n := len(bad.Origins) + len(bad.Methods) + len(bad.RequestHeaders) + len(bad.ResponseHeaders); n > 64 {
+		stride = max(8, len(suite)/3)
+	}
+	off := int(p.Perm % uint64(stride))
+	var v *Violation
+	pan = catch(func() {
+		srv := newServer(m.Wrap)
+		for i, q := range suite {
+			r := srv.do(q)
+			if i%stride != off {
+				continue
+			}
+			cc := bad.Config()
+			if err := m.Reconfigure(&cc); err == nil {
+				v = &Violation{Class: "accepted-invalid", Key: bad.String(), Detail: fmt.Sprintf("%s: Reconfigure accepted %s (planted %v) when repeated", label, bad, st.Planted)}
+				return
+			}
+			c.hit("F1_rejected_mid_stream")
+			if r2 := srv.do(q); r2 != r {
+				v = &Violation{Class: "state-changed", Key: "rejected-reconfigure-mid-stream", Detail: fmt.Sprintf("%s: request %s (no. %d of the stream): %s; after a rejected Reconfigure(%s) right behind it, the same request: %s", label, q, i, r, bad, r2)}
+				return
+			}
+		}
+	})
+	if pan != "" {
+		return &Violation{Class: "panic", Key: "observe", Detail: label + ": " + pan}
+	}
+	return v
 }
 
 func (e histEngine) Shrink(plan any) []any {
